@@ -358,6 +358,11 @@ def stem_of(e):
     return tm.app("path_stem", STR, fname(e))
 
 
+def exact_ext(e, exts):
+    """the entry's extension is, letter for letter, one of the registry's (what the lookup can find)"""
+    return tm.or_(*[tm.eq(tm.app("path_ext", STR, fname(e)), tm.S("." + x)) for x in exts])
+
+
 def _the_set(st):
     """the set the loop fills (whatever the local is called)"""
     sets = [v for v in st.env.values() if isinstance(v, VObj) and v.kind == "PySet"]
@@ -400,9 +405,10 @@ class DirLoop(LoopSpec):
             ("yielded-keys-are-seen-at-their-own-position", tm.forall_range(i, 0, n, tm.and_(
                 tm.select(seen, tm.seqnth(Y, i)), tm.eq(tm.select(W1, tm.seqnth(Y, i)), i)))),
             ("yielded-keys-are-stems-of-processed-entries", tm.forall_range(i, 0, n, tm.and_(
-                tm.le(0, tm.select(W2, i)), tm.lt(tm.select(W2, i), k),
+                tm.le(0, tm.select(W2, i)), tm.lt(tm.select(W2, i), k), exact_ext(tm.seqnth(F, tm.select(W2, i)), self.con.EXT),
                 tm.eq(stem_of(tm.seqnth(F, tm.select(W2, i))), tm.seqnth(Y, i))))),
-            ("stems-of-processed-entries-are-seen", tm.forall_range(j, 0, k, tm.select(seen, stem_of(tm.seqnth(F, j))))),
+            ("stems-of-processed-entries-are-seen", tm.forall_range(j, 0, k, tm.implies(
+                exact_ext(tm.seqnth(F, j), self.con.EXT), tm.select(seen, stem_of(tm.seqnth(F, j)))))),
             ("k-in-range", tm.le(k, tm.seqlen(F))),
         ]
 
@@ -422,26 +428,33 @@ class DirLoop(LoopSpec):
 
     def hints(self, ex, st, ctx):
         Y1 = st.ghost["yielded"]
+        out = []
+        # the extension of the entry at hand: `ext[1:] in extensions` is `ext` being '.' + one of them (instances of the aux
+        # lemma ext-tail, a fact of the theory of strings)
+        for idx in (ctx["k"], tm.sub(ctx["k"], 1)):        # (the counter has advanced when the invariant is re-established)
+            x = tm.app("path_ext", STR, fname(tm.seqnth(self.con.F, idx)))
+            out += [tm.implies(tm.eq(x, tm.S("." + e_)), tm.eq(tm.pyslice(x, 1, None), tm.S(e_))) for e_ in self.con.EXT]
         if Y1.op == "seq.++" and len(Y1.args) == 2 and Y1.args[1].op == "seq.unit":
             P, e = Y1.args[0], Y1.args[1].args[0]
             t = tm.V("t", INT)
-            return [tm.and_(tm.forall_range(t, 0, tm.seqlen(P), tm.eq(tm.seqnth(Y1, t), tm.seqnth(P, t))),
-                            tm.eq(tm.seqnth(Y1, tm.seqlen(P)), e), tm.eq(tm.seqlen(Y1), tm.add(tm.seqlen(P), 1)))]
-        return []
+            out.append(tm.and_(tm.forall_range(t, 0, tm.seqlen(P), tm.eq(tm.seqnth(Y1, t), tm.seqnth(P, t))),
+                               tm.eq(tm.seqnth(Y1, tm.seqlen(P)), e), tm.eq(tm.seqlen(Y1), tm.add(tm.seqlen(P), 1))))
+        return out
 
 
-def iter_post(F, Y, W1, W2):
-    """what iteration guarantees about the sequence Y of keys it yields, in witness form"""
+def iter_post(F, Y, W1, W2, exts=("gb", "gbk")):
+    """what iteration guarantees about the sequence Y of keys it yields, in witness form (files listed with an extension
+    that matches only up to letter case are passed over: the lookup could not find them)"""
     i, j, a, b = tm.V("i", INT), tm.V("j", INT), tm.V("a", INT), tm.V("b", INT)
     n = tm.seqlen(Y)
     return [
         ("yields-each-key-once", tm.forall([a, b], tm.implies(tm.and_(tm.le(0, a), tm.lt(a, b), tm.lt(b, n)),
                                                             tm.ne(tm.seqnth(Y, a), tm.seqnth(Y, b))))),
-        ("every-listed-file-contributes-its-stem", tm.forall_range(j, 0, tm.seqlen(F), tm.and_(
+        ("every-listed-file-contributes-its-stem", tm.forall_range(j, 0, tm.seqlen(F), tm.implies(exact_ext(tm.seqnth(F, j), exts), tm.and_(
             tm.le(0, tm.select(W1, stem_of(tm.seqnth(F, j)))), tm.lt(tm.select(W1, stem_of(tm.seqnth(F, j))), n),
-            tm.eq(tm.seqnth(Y, tm.select(W1, stem_of(tm.seqnth(F, j)))), stem_of(tm.seqnth(F, j)))))),
+            tm.eq(tm.seqnth(Y, tm.select(W1, stem_of(tm.seqnth(F, j)))), stem_of(tm.seqnth(F, j))))))),
         ("every-key-is-the-stem-of-a-listed-file", tm.forall_range(i, 0, n, tm.and_(
-            tm.le(0, tm.select(W2, i)), tm.lt(tm.select(W2, i), tm.seqlen(F)),
+            tm.le(0, tm.select(W2, i)), tm.lt(tm.select(W2, i), tm.seqlen(F)), exact_ext(tm.seqnth(F, tm.select(W2, i)), exts),
             tm.eq(stem_of(tm.seqnth(F, tm.select(W2, i))), tm.seqnth(Y, i))))),
     ]
 
@@ -473,10 +486,13 @@ class FsIter(Contract):
         from pyvc.solve import Obligation
         P, e, t = tm.V("P", SEQS), tm.V("e", STR), tm.V("t", INT)
         Pe = tm.seqcat(P, tm.sequnit(e))
+        x = tm.V("x", STR)
         return [Obligation("seqs-snoc", [tm.le(0, t), tm.lt(t, tm.seqlen(P))],
                            tm.and_(tm.eq(tm.seqnth(Pe, t), tm.seqnth(P, t)), tm.eq(tm.seqnth(Pe, tm.seqlen(P)), e),
                                    tm.eq(tm.seqlen(Pe), tm.add(tm.seqlen(P), 1))),
-                           kind="B", text="nth(P ++ [e], t) = nth(P, t) for t < |P|, nth(P ++ [e], |P|) = e, |P ++ [e]| = |P| + 1")]
+                           kind="B", text="nth(P ++ [e], t) = nth(P, t) for t < |P|, nth(P ++ [e], |P|) = e, |P ++ [e]| = |P| + 1"),
+                Obligation("ext-tail", [], tm.and_(*[tm.implies(tm.eq(x, tm.S("." + e_)), tm.eq(tm.pyslice(x, 1, None), tm.S(e_))) for e_ in ("gb", "gbk", "genbank")]),
+                           kind="B", text="x = '.' + e  =>  x[1:] = e")]
 
     def result(self, ex, st, a):
         st = st.fork()
